@@ -4,7 +4,7 @@ io.StringIO/BytesIO behind the text classes).  Frame i / atom j carries coordina
 (h5/nc) and cell lengths (5+i,6,7), so every returned field identifies what was read."""
 import vtlib.xhfix  # noqa: F401  (CrossHair configuration; see module docstring)
 import numpy as np
-from crosshair import realize
+from vtlib.xhfix import conc
 
 import mdtraj.core.trajectory as _tr
 import mdtraj.formats.hdf5 as _h5
@@ -41,7 +41,7 @@ class _H5(_h5.HDF5TrajectoryFile):
 def mk_h5(total, pos=0):
     f = object.__new__(_H5)
     f._open, f.mode, f.tables = True, "r", FakeTables()
-    f._handle = h5_handle_arrays(realize(total))
+    f._handle = h5_handle_arrays(conc(total))
     f._frame_index, f._needs_initialization = pos, False
     return f
 
@@ -52,7 +52,7 @@ _NCCls = _nc.NetCDFTrajectoryFile
 def mk_nc(total, pos=0):
     f = object.__new__(_NCCls)
     f._closed, f._mode = False, "r"
-    f._handle = nc_handle_arrays(realize(total))
+    f._handle = nc_handle_arrays(conc(total))
     f._frame_index, f._needs_initialization = pos, False
     return f
 
@@ -112,7 +112,7 @@ def _open_for(fmt, total):
 
 
 def _iterload(fmt, total, chunk, stride, skip, bits):
-    total = realize(total)
+    total = conc(total)
     _tr.open = _open_for(fmt, total)
     n = NAT[fmt]
     sub = None if bits is None else _subset(n, bits)
@@ -169,7 +169,7 @@ LOADERS = {"h5": lambda **k: _h5.load_hdf5("mem.h5", **k), "nc": lambda **k: _nc
 
 
 def _load_frame(fmt, total, frame, bits):
-    total = realize(total)
+    total = conc(total)
     _install_class(fmt, total)
     n = NAT[fmt]
     sub = None if bits is None else _subset(n, bits)
@@ -178,7 +178,7 @@ def _load_frame(fmt, total, frame, bits):
 
 
 def _load_stride(fmt, total, stride, bits):
-    total = realize(total)
+    total = conc(total)
     _install_class(fmt, total)
     n = NAT[fmt]
     sub = None if bits is None else _subset(n, bits)
@@ -495,3 +495,56 @@ def arc_load_stride(total: int, stride: int, b0: bool, b1: bool, b2: bool) -> bo
     post: __return__
     """
     return _load_stride("arc", total, stride, (b0, b1, b2,))
+
+
+# ------------------------------------------------------------------ (d) iterload's format-independent branches
+class IdTraj:
+    """stand-in for the Trajectory that the (stubbed) full `load` returns: frame ids + atom ids."""
+
+    def __init__(self, ids, atoms):
+        self.ids, self.atoms = list(ids), atoms
+
+    def __len__(self):
+        return len(self.ids)
+
+    def __getitem__(self, key):
+        return IdTraj(self.ids[key], self.atoms)
+
+
+def _iterload_generic(ext, total, chunk, stride, skip, bits):
+    total, stride, skip, chunk = conc(total), conc(stride), conc(skip), conc(chunk)
+    sub = None if bits is None else _subset(3, bits)
+
+    def fake_load(filename, **kw):      # contract of md.load: honours stride and atom_indices
+        s = kw.get("stride") or 1
+        ai = kw.get("atom_indices")
+        return IdTraj(list(range(total))[::s], None if ai is None else [int(a) for a in ai])
+    _tr.load = fake_load
+    kw = {} if ext in (".pdb", ".h5") else {"top": TOP3}
+    chunks = list(_tr.iterload("mem" + ext, chunk=chunk, stride=stride, skip=skip, atom_indices=sub, **kw))
+    got = [i for c in chunks for i in c.ids]
+    if got != list(range(total))[skip::stride]:
+        return False
+    if any(c.atoms != sub for c in chunks):
+        return False
+    if chunk > 0 and any(len(c) != chunk for c in chunks[:-1]):
+        return False
+    return True
+
+
+def iterload_chunk0(total: int, stride: int, skip: int, b0: bool, b1: bool, h5: bool) -> bool:
+    """
+    pre: 1 <= total <= 6 and 1 <= stride <= 3 and 0 <= skip <= total
+    post: __return__
+    """
+    bits = (b0, b1, False) if (b0 or b1) else None
+    return _iterload_generic(".h5" if h5 else ".xyz", total, 0, stride, skip, bits)
+
+
+def iterload_pdb(total: int, chunk: int, stride: int, skip: int, b0: bool, b1: bool) -> bool:
+    """
+    pre: 1 <= total <= 6 and 1 <= chunk <= 4 and 1 <= stride <= 3 and 0 <= skip <= total
+    post: __return__
+    """
+    bits = (b0, b1, False) if (b0 or b1) else None
+    return _iterload_generic(".pdb", total, chunk, stride, skip, bits)
